@@ -42,6 +42,13 @@ def BRSUM_STEP(X, b, s, HH, S, k):
     return z3.Implies(k >= 0, BRSUM(X, b, s, HH, S, k + 1) == BRSUM(X, b, s, HH, S, k) + DOT(X, b + k, s, HH[k], S))
 
 
+def DOT_EXT(A, B, o, s, H, n):
+    """DOT reads only X[o + j*s], j < n (lemma; by induction on n from the two defining equations)"""
+    j = z3.Int('j!dx')
+    return z3.Implies(z3.ForAll([j], z3.Implies(z3.And(0 <= j, j < n), A[o + j * s] == B[o + j * s])),
+                      DOT(A, o, s, H, n) == DOT(B, o, s, H, n))
+
+
 def data(a):
     """element map of a base_array / vector spec value (Array(Int, T); struct elements: per-field arrays)"""
     t = a.tree if hasattr(a, 'tree') else a
@@ -60,5 +67,5 @@ def im_data(a):
 
 
 NS = {'SUMR': SUMR, 'DOT': DOT, 'BRSUM': BRSUM, 'SUMR_BASE': SUMR_BASE, 'SUMR_STEP': SUMR_STEP, 'DOT_BASE': DOT_BASE,
-      'DOT_STEP': DOT_STEP, 'BRSUM_BASE': BRSUM_BASE, 'BRSUM_STEP': BRSUM_STEP, 'data': data, 're_data': re_data,
+      'DOT_STEP': DOT_STEP, 'DOT_EXT': DOT_EXT, 'BRSUM_BASE': BRSUM_BASE, 'BRSUM_STEP': BRSUM_STEP, 'data': data, 're_data': re_data,
       'im_data': im_data}
